@@ -144,7 +144,10 @@ impl<'i, 's> LexWith<'i, &FilterParser<'s>> for FunctionCallArgExpr {
                 return RhsValue::lex_with(input, Type::Bytes)
                     .map(|(literal, input)| (FunctionCallArgExpr::Literal(literal), input));
             } else if c == '('
-                || UnaryOp::lex(input).is_ok()
+                || matches!(
+                    LogicalExpr::lex_unary_op(input, parser),
+                    Some((UnaryOp::Not, _))
+                )
                 || QuantifierOp::lex_call(input).is_some()
             {
                 return LogicalExpr::lex_with(input, parser)
